@@ -572,7 +572,7 @@ pub fn main(args: Args) {
     let corpus: Vec<vcommon::corpus::CorpusFile> =
         vcommon::corpus::all_veryl().into_iter().filter(|f| f.kind != "error").collect();
     let corpus = Arc::new(corpus);
-    let n_inputs = args.budget("inputs", 450, 6000);
+    let n_inputs = args.budget("inputs", 450, 3000);
     let k = args.budget("settings", 2, 4);
     let total = n_inputs * k;
     let seed = args.seed;
@@ -606,15 +606,16 @@ pub fn main(args: Args) {
         },
     );
     run.finish(&[
-        ("designs_judged", 150),
-        ("entries_checked", 30_000),
-        ("entries_mapping_to_comments", 500),
-        ("entries_where_column_unit_matters", 100),
-        ("identifier_words_checked", 10_000),
-        ("maps_equal_to_renderer_anchors", 150),
-        ("crlf_outputs", 10),
-        ("strip_comments_designs", 10),
-        ("settings", 30),
-        ("distinct_nontrivial", 80),
+        ("designs_judged", 250),
+        ("entries_checked", 60_000),
+        ("entries_mapping_to_comments", 3_000),
+        ("entries_where_column_unit_matters", 1_500),
+        ("designs_where_column_unit_matters", 60),
+        ("identifier_words_checked", 15_000),
+        ("maps_equal_to_renderer_anchors", 250),
+        ("crlf_outputs", 60),
+        ("strip_comments_designs", 40),
+        ("settings", 50),
+        ("distinct_nontrivial", 150),
     ]);
 }
